@@ -1,75 +1,199 @@
-//! `Mutex` for the H3 hook: shuttle's mutex plus a scheduling point *after*
-//! the release.  shuttle switches before it acquires and before it releases
-//! (i.e. while the lock is still held); a real thread can also be preempted
-//! right after it let go of the lock -- "record taken, row not yet written" --
-//! and that is exactly the window the ordering properties are about.
+//! `Mutex` / `Condvar` for the H3 hook: shuttle's mutex plus
+//!
+//!  * a scheduling point *after* the release.  shuttle switches before it
+//!    acquires and before it releases (i.e. while the lock is still held); a real
+//!    thread can also be preempted right after it let go of the lock -- "record
+//!    taken, row not yet written" -- which is exactly the window the ordering
+//!    properties are about;
+//!  * std-like behaviour when a thread panics while holding the lock: the lock is
+//!    released, marked poisoned, and the waiters wake up with a `PoisonError`.
+//!    (shuttle's own guard, dropped during unwinding, closes the lock and leaves
+//!    its waiters blocked for good, because it assumes the whole test is failing;
+//!    here a panic is often an ordinary outcome -- a rejected record, an injected
+//!    abort -- so the release of such a guard is deferred to the first moment the
+//!    thread is no longer unwinding.)
 
+use std::cell::RefCell;
 use std::fmt;
+use std::marker::PhantomData;
 use std::ops::{Deref, DerefMut};
+use std::sync::atomic::{AtomicBool, Ordering};
+use std::sync::Arc;
 pub use std::sync::{LockResult, PoisonError, TryLockError, TryLockResult};
 
-pub struct Mutex<T: ?Sized> {
-    inner: shuttle::sync::Mutex<T>,
+struct Shared<T> {
+    m: shuttle::sync::Mutex<T>,
+    poisoned: AtomicBool,
 }
 
-pub struct MutexGuard<'a, T: ?Sized> {
-    inner: Option<shuttle::sync::MutexGuard<'a, T>>,
+pub struct Mutex<T> {
+    sh: Arc<Shared<T>>,
+}
+
+pub struct MutexGuard<'a, T> {
+    g: Option<shuttle::sync::MutexGuard<'a, T>>,
+    sh: Arc<Shared<T>>,
+    _p: PhantomData<&'a Mutex<T>>,
+}
+
+thread_local! {
+    static DEFERRED: RefCell<Vec<Box<dyn FnOnce()>>> = const { RefCell::new(Vec::new()) };
+}
+
+/// Release the locks whose guards were dropped while their thread was
+/// unwinding.  Called from every scheduling/fault point, from `lock`, and by the
+/// stand-ins right after they caught a panic.
+pub fn release_deferred() {
+    if std::thread::panicking() {
+        return;
+    }
+    let pending = DEFERRED.with(|d| {
+        let mut d = d.borrow_mut();
+        if d.is_empty() {
+            Vec::new()
+        } else {
+            std::mem::take(&mut *d)
+        }
+    });
+    for f in pending {
+        f();
+    }
+}
+
+pub(crate) fn clear_deferred() {
+    // a new execution starts: whatever an abandoned execution left behind
+    // refers to dead coroutines; leak it rather than touch it
+    DEFERRED.with(|d| {
+        for f in std::mem::take(&mut *d.borrow_mut()) {
+            std::mem::forget(f);
+        }
+    });
 }
 
 impl<T> Mutex<T> {
     pub fn new(value: T) -> Self {
         Mutex {
-            inner: shuttle::sync::Mutex::new(value),
+            sh: Arc::new(Shared {
+                m: shuttle::sync::Mutex::new(value),
+                poisoned: AtomicBool::new(false),
+            }),
         }
     }
-    pub fn into_inner(self) -> LockResult<T> {
-        self.inner.into_inner()
-    }
-}
 
-impl<T: ?Sized> Mutex<T> {
+    fn wrap<'a>(&'a self, g: shuttle::sync::MutexGuard<'a, T>) -> MutexGuard<'a, T> {
+        MutexGuard {
+            g: Some(g),
+            sh: self.sh.clone(),
+            _p: PhantomData,
+        }
+    }
+
     pub fn lock(&self) -> LockResult<MutexGuard<'_, T>> {
-        match self.inner.lock() {
-            Ok(g) => Ok(MutexGuard { inner: Some(g) }),
-            Err(p) => Err(PoisonError::new(MutexGuard {
-                inner: Some(p.into_inner()),
-            })),
+        release_deferred();
+        let g = match self.sh.m.lock() {
+            Ok(g) => g,
+            Err(p) => p.into_inner(),
+        };
+        let g = self.wrap(g);
+        if self.sh.poisoned.load(Ordering::SeqCst) {
+            Err(PoisonError::new(g))
+        } else {
+            Ok(g)
         }
     }
+
     pub fn try_lock(&self) -> TryLockResult<MutexGuard<'_, T>> {
-        match self.inner.try_lock() {
-            Ok(g) => Ok(MutexGuard { inner: Some(g) }),
-            Err(TryLockError::WouldBlock) => Err(TryLockError::WouldBlock),
-            Err(TryLockError::Poisoned(p)) => Err(TryLockError::Poisoned(PoisonError::new(MutexGuard {
-                inner: Some(p.into_inner()),
-            }))),
+        release_deferred();
+        let g = match self.sh.m.try_lock() {
+            Ok(g) => g,
+            Err(TryLockError::WouldBlock) => return Err(TryLockError::WouldBlock),
+            Err(TryLockError::Poisoned(p)) => p.into_inner(),
+        };
+        let g = self.wrap(g);
+        if self.sh.poisoned.load(Ordering::SeqCst) {
+            Err(TryLockError::Poisoned(PoisonError::new(g)))
+        } else {
+            Ok(g)
         }
     }
-    pub fn get_mut(&mut self) -> LockResult<&mut T> {
-        self.inner.get_mut()
+
+    pub fn is_poisoned(&self) -> bool {
+        self.sh.poisoned.load(Ordering::SeqCst)
     }
+
     pub fn clear_poison(&self) {
-        self.inner.clear_poison()
+        self.sh.poisoned.store(false, Ordering::SeqCst)
+    }
+
+    pub fn get_mut(&mut self) -> LockResult<&mut T> {
+        let poisoned = self.is_poisoned();
+        let sh = Arc::get_mut(&mut self.sh).expect("Mutex::get_mut while a guard is alive");
+        match sh.m.get_mut() {
+            Ok(v) => {
+                if poisoned {
+                    Err(PoisonError::new(v))
+                } else {
+                    Ok(v)
+                }
+            }
+            Err(p) => Err(PoisonError::new(p.into_inner())),
+        }
+    }
+
+    pub fn into_inner(self) -> LockResult<T> {
+        release_deferred();
+        let poisoned = self.is_poisoned();
+        let sh = match Arc::try_unwrap(self.sh) {
+            Ok(s) => s,
+            Err(_) => panic!("Mutex::into_inner while a guard is alive"),
+        };
+        match sh.m.into_inner() {
+            Ok(v) => {
+                if poisoned {
+                    Err(PoisonError::new(v))
+                } else {
+                    Ok(v)
+                }
+            }
+            Err(p) => Err(PoisonError::new(p.into_inner())),
+        }
     }
 }
 
-impl<T: ?Sized> Drop for MutexGuard<'_, T> {
+impl<T> Drop for MutexGuard<'_, T> {
     fn drop(&mut self) {
-        self.inner = None; // release (shuttle switches before releasing)
-        crate::sched_point("mutex_released");
+        let g = match self.g.take() {
+            Some(g) => g,
+            None => return, // handed to a Condvar
+        };
+        if std::thread::panicking() {
+            self.sh.poisoned.store(true, Ordering::SeqCst);
+            let keep = self.sh.clone();
+            // the closure owns an Arc to everything the guard refers to
+            let f: Box<dyn FnOnce() + '_> = Box::new(move || {
+                drop(g);
+                drop(keep);
+            });
+            // SAFETY: the closure owns an Arc to everything the guard refers to.
+            let f: Box<dyn FnOnce() + 'static> = unsafe { std::mem::transmute(f) };
+            DEFERRED.with(|d| d.borrow_mut().push(f));
+        } else {
+            drop(g); // shuttle switches before it releases
+            crate::sched_point("mutex_released");
+        }
     }
 }
 
-impl<T: ?Sized> Deref for MutexGuard<'_, T> {
+impl<T> Deref for MutexGuard<'_, T> {
     type Target = T;
     fn deref(&self) -> &T {
-        self.inner.as_ref().unwrap()
+        self.g.as_ref().unwrap()
     }
 }
 
-impl<T: ?Sized> DerefMut for MutexGuard<'_, T> {
+impl<T> DerefMut for MutexGuard<'_, T> {
     fn deref_mut(&mut self) -> &mut T {
-        self.inner.as_mut().unwrap()
+        self.g.as_mut().unwrap()
     }
 }
 
@@ -85,21 +209,21 @@ impl<T> From<T> for Mutex<T> {
     }
 }
 
-impl<T: ?Sized + fmt::Debug> fmt::Debug for Mutex<T> {
+impl<T: fmt::Debug> fmt::Debug for Mutex<T> {
     fn fmt(&self, f: &mut fmt::Formatter<'_>) -> fmt::Result {
-        self.inner.fmt(f)
+        self.sh.m.fmt(f)
     }
 }
 
-impl<T: ?Sized + fmt::Debug> fmt::Debug for MutexGuard<'_, T> {
+impl<T: fmt::Debug> fmt::Debug for MutexGuard<'_, T> {
     fn fmt(&self, f: &mut fmt::Formatter<'_>) -> fmt::Result {
-        self.inner.as_ref().unwrap().fmt(f)
+        self.g.as_ref().unwrap().fmt(f)
     }
 }
 
-impl<T: ?Sized + fmt::Display> fmt::Display for MutexGuard<'_, T> {
+impl<T: fmt::Display> fmt::Display for MutexGuard<'_, T> {
     fn fmt(&self, f: &mut fmt::Formatter<'_>) -> fmt::Result {
-        self.inner.as_ref().unwrap().fmt(f)
+        self.g.as_ref().unwrap().fmt(f)
     }
 }
 
@@ -116,13 +240,23 @@ impl Condvar {
         }
     }
     pub fn wait<'a, T>(&self, mut guard: MutexGuard<'a, T>) -> LockResult<MutexGuard<'a, T>> {
-        let g = guard.inner.take().unwrap();
-        std::mem::forget(guard);
-        match self.inner.wait(g) {
-            Ok(g) => Ok(MutexGuard { inner: Some(g) }),
-            Err(p) => Err(PoisonError::new(MutexGuard {
-                inner: Some(p.into_inner()),
-            })),
+        let g = guard.g.take().unwrap();
+        let sh = guard.sh.clone();
+        drop(guard);
+        let g = match self.inner.wait(g) {
+            Ok(g) => g,
+            Err(p) => p.into_inner(),
+        };
+        let poisoned = sh.poisoned.load(Ordering::SeqCst);
+        let ng = MutexGuard {
+            g: Some(g),
+            sh,
+            _p: PhantomData,
+        };
+        if poisoned {
+            Err(PoisonError::new(ng))
+        } else {
+            Ok(ng)
         }
     }
     pub fn wait_while<'a, T, F>(&self, mut guard: MutexGuard<'a, T>, mut condition: F) -> LockResult<MutexGuard<'a, T>>
